@@ -147,9 +147,7 @@ class Sum(Factory, Container):
 
         import numpy
 
-        selection = numpy.isnan(q)
-        numpy.bitwise_not(selection, selection)
-        numpy.bitwise_and(selection, weights > 0.0, selection)
+        selection = weights > 0.0
         q = q[selection]
         weights = weights[selection]
         q = q * weights
